@@ -46,7 +46,7 @@ def gen(rng, i):
     return {"flavour": "manual" if i % 2 == 0 else "pool", "jobs": jobs,
             "cancel_fn": rng.choice([None, None, "true", "false", "raise"]),
             "poll_raise": rng.choice([0, 0, 0, 1, 2, 3]), "poll_raise_after": rng.random() < 0.5,
-            "poll_dur": rng.choice([0, 0, 0, 40]),
+            "poll_dur": rng.choice([0, 0, 0, 40]), "poll_mutates": rng.random() < 0.3,
             "notify": rng.sample([120, 260, 410, 900], rng.choice([0, 0, 1, 2])),
             "interval": rng.choice([500, 500, 800]), "horizon": 4000, "workers": rng.choice([1, 2, 3])}
 
@@ -100,6 +100,15 @@ def run(ck):
           "cancel_fn": None, "poll_raise": 0, "poll_dur": 0, "notify": [], "interval": 500, "horizon": 2500}
     swept += _core.phase_tasks("poll", pr, [("PollExecutor-q", "env2")], range(1, 260, 2 if quick else 1), [10000],
                                gran="instr", facts={"cancel_fn": None}, prefix=[["env1", 10000]])
+    # a vetoing cancel function: one future is resolved by a yield (its descriptor leaves the list) while another
+    # thread's cancel() of a LATER registered future is looking its own descriptor up - bytecode granularity
+    pv = {"flavour": "manual", "jobs": [{"S": 0, "D": 100, "fail": False, "y": 3, "K": None, "C": True},
+                                        {"S": 0, "D": 110, "fail": False, "y": 0, "K": 120, "C": True}],
+          "cancel_fn": "false", "poll_raise": 0, "poll_dur": 0, "notify": [120], "interval": 500, "horizon": 2500}
+    for n in range(1, 130, 2 if quick else 1):
+        swept.append({"scen": "poll", "params": pv,
+                      "strat": ["phases", [["notif0", 10000, 120], ["can2", n], ["PollExecutor-q", 10000], ["can2", 10000]]],
+                      "gran": "instr", "facts": {"cancel_fn": "false", "directed": True}})
     ck.run_and_validate(swept, TRACE, nontrivial=lambda t, r: True)
     ck.assumptions += [
         "'must be shown' is demanded of futures whose delegate completion (incl. callbacks) preceded the previous poll call's return; promptness covers the rest",
